@@ -6,6 +6,7 @@ import (
 	"go/token"
 	"math/rand"
 	"sort"
+	"strings"
 
 	"verifharness/hist"
 	"verifharness/term"
@@ -231,6 +232,27 @@ func (g *c08gen) hint(p int) {
 	_, written := g.firstWrite[p]
 	name := pick(r, namePool)
 	var op hist.Op
+	if written && r.Intn(5) == 0 {
+		// a hint that uses the blank identifier, given AFTER the path was written: the path
+		// keeps its registered name (a blank hint before the first rendering makes `_.X`
+		// references and is outside the domain: never generated)
+		switch r.Intn(3) {
+		case 0:
+			op = hist.Op{Kind: "importalias", F: 0, A: path, B: "_"}
+		case 1:
+			op = hist.Op{Kind: "importname", F: 0, A: path, B: "_"}
+		default:
+			op = hist.Op{Kind: "importnames", F: 0, Pairs: [][2]string{{path, "_"}}}
+		}
+		g.tag("hint-after-render")
+		g.tag("blank-hint-after-render")
+		if g.dotHint[p] {
+			g.tag("dot-hint-removed-after-render")
+		}
+		g.dotHint[p] = false
+		g.add(op)
+		return
+	}
 	switch r.Intn(6) {
 	case 0, 1:
 		op = hist.Op{Kind: "importname", F: 0, A: path, B: name}
@@ -386,7 +408,299 @@ func (c08) Generate(r *rand.Rand, t string) []*Case {
 	for i := 0; i < n; i++ {
 		out = append(out, c08History(r))
 	}
+	nl := tier(t, 900, 45000)
+	for i := 0; i < nl; i++ {
+		out = append(out, c08LateHints(r, i%3))
+	}
 	return out
+}
+
+// ---- stream late-hints: structured histories around two (or three) File.Renders ----
+//
+// family 0, blank-hint-after-render: a path is written under a name (std name, ImportName,
+//
+//	ImportAlias, guessed alias, or bare through a dot hint); afterwards 1..3 further hints
+//	are given for it, at least one of them with the blank identifier - ImportAlias(p, "_"),
+//	ImportName(p, "_"), ImportNames{p: "_"} - mixed with ImportName(p, "kv") /
+//	ImportAlias(p, "kv") / a dot hint in any order; then a fragment and/or a new reference
+//	and further File.Renders: the registered name must stay.
+//
+// family 1, anon-upgraded-between-renders: Anon(p) plus references to 1..2 other paths; the
+//
+//	first File.Render imports `_ "p"`; then p is referenced (File.Add, optionally a fragment
+//	before) and the second File.Render must show p under a real name while every other
+//	import line stays as it was; the number of imports does not change.
+//
+// family 2, preamble-added-between-renders: between two File.Renders a CgoPreamble is added
+//
+//	together with exactly one new import (a reference to a new path / Anon of a new path /
+//	Qual("C", ..) / nothing but "C" itself); "C" may already have been in the block (Qual or
+//	Anon before the first render) and then has to move below the preamble.
+func c08LateHints(r *rand.Rand, family int) *Case {
+	tags := map[string]bool{}
+	std := []string{"fmt", "strings", "math/rand", "text/template", "os"}
+	user := []string{"a.b/d", "c.b/d", "a.b/rand", "x.y/rand", "a.b/x", "c.d/x", "x.y/pkg", "a.b/fmt", "x.y/os", "gopkg.in/yaml.v3"}
+	seen := map[string]bool{}
+	var paths []string
+	take := func(pool []string) int {
+		for {
+			p := pick(r, pool)
+			if !seen[p] {
+				seen[p] = true
+				paths = append(paths, p)
+				return len(paths) - 1
+			}
+		}
+	}
+	ctr := 0
+	ref := func(i int) *term.Stmt {
+		q := func() *term.Stmt {
+			ctr++
+			return term.S(term.Qual(paths[i], fmt.Sprintf("V%d_%d", i, ctr)))
+		}
+		switch r.Intn(4) {
+		case 0:
+			return term.S(term.Named("Var"), term.Id("_"), term.Op("="), q())
+		case 1:
+			return term.S(term.Named("Type"), term.Id("_"), term.G("Struct", term.S(term.Id("F"), q())))
+		case 2:
+			tags["case-block"] = true
+			cs := term.S(term.G("Case", term.S(q(), term.Op("=="), term.Lit(1))), term.G("Block", term.S(term.Id("_"), term.Op("="), q())))
+			return term.S(term.Named("Func"), term.Id("_"), term.G("Params"), term.G("Block", term.S(term.G("Switch"), term.G("Block", cs))))
+		default:
+			return term.S(term.Named("Var"), term.Id("_"), term.Op("="), term.Id("f"), term.G("Call", q(), term.S(term.Null()), q()))
+		}
+	}
+	var h hist.History
+	info := &c08info{}
+	tgt := -1
+	if family == 0 && r.Intn(3) == 0 {
+		tgt = take(std)
+	} else {
+		tgt = take(user)
+	}
+	var others []int
+	for k := 1 + r.Intn(2); k > 0; k-- {
+		if r.Intn(4) == 0 {
+			others = append(others, take(std))
+		} else {
+			others = append(others, take(user))
+		}
+	}
+	p := paths[tgt]
+	if r.Intn(3) == 0 {
+		info.Local = paths[others[0]]
+		h = append(h, hist.Op{Kind: "newfilepathname", F: 0, A: info.Local, B: "q"})
+		tags["local"] = true
+	} else {
+		h = append(h, hist.Op{Kind: "newfile", F: 0, A: "p"})
+	}
+	if r.Intn(3) == 0 {
+		h = append(h, hist.Op{Kind: "prefix", F: 0, A: pick(r, prefixPool)})
+	}
+	if r.Intn(4) == 0 {
+		h = append(h, hist.Op{Kind: "noformat", F: 0, Flag: true})
+		tags["noformat"] = true
+	}
+	add := func(ops ...hist.Op) { h = append(h, ops...) }
+	render := hist.Op{Kind: "render", F: 0}
+	dbl := r.Intn(2) // which of the first two File.Renders is emitted twice
+	nrender := 0
+	doRender := func() {
+		add(render)
+		if nrender == dbl {
+			add(render)
+			tags["render-twice"] = true
+		}
+		nrender++
+	}
+	fragment := func(i int) {
+		add(hist.Op{Kind: "rcode", F: 0, Code: ref(i)})
+		tags["fragment-between-renders"] = true
+	}
+	addRefs := func(is ...int) {
+		r.Shuffle(len(is), func(a, b int) { is[a], is[b] = is[b], is[a] })
+		for _, i := range is {
+			add(hist.Op{Kind: "fadd", F: 0, Code: ref(i)})
+		}
+	}
+	switch family {
+	case 0:
+		switch r.Intn(5) {
+		case 0:
+			add(hist.Op{Kind: "importname", F: 0, A: p, B: pick(r, namePool)})
+		case 1:
+			add(hist.Op{Kind: "importalias", F: 0, A: p, B: pick(r, namePool)})
+		case 2:
+			add(hist.Op{Kind: "importalias", F: 0, A: p, B: "."})
+			tags["written-bare"] = true
+		}
+		if r.Intn(4) == 0 {
+			add(hist.Op{Kind: "importname", F: 0, A: paths[others[0]], B: pick(r, namePool)})
+		}
+		addRefs(append([]int{tgt}, others...)...)
+		doRender()
+		blanks := []hist.Op{
+			{Kind: "importalias", F: 0, A: p, B: "_"},
+			{Kind: "importname", F: 0, A: p, B: "_"},
+			{Kind: "importnames", F: 0, Pairs: [][2]string{{p, "_"}}},
+		}
+		named := []hist.Op{
+			{Kind: "importname", F: 0, A: p, B: "kv"},
+			{Kind: "importalias", F: 0, A: p, B: "kv"},
+			{Kind: "importalias", F: 0, A: p, B: "."},
+			{Kind: "importname", F: 0, A: p, B: pick(r, namePool)},
+		}
+		later := func() {
+			hs := []hist.Op{blanks[r.Intn(len(blanks))]}
+			for k := r.Intn(3); k > 0; k-- {
+				if r.Intn(3) == 0 {
+					hs = append(hs, blanks[r.Intn(len(blanks))])
+				} else {
+					hs = append(hs, named[r.Intn(len(named))])
+					tags["blank-hint+other-later-hint"] = true
+				}
+			}
+			r.Shuffle(len(hs), func(a, b int) { hs[a], hs[b] = hs[b], hs[a] })
+			// a fragment and a new reference at random positions between the hints
+			extra := []func(){}
+			if r.Intn(2) == 0 {
+				extra = append(extra, func() { fragment(tgt) })
+			}
+			if r.Intn(2) == 0 {
+				extra = append(extra, func() { addRefs(tgt) })
+			}
+			acts := []func(){}
+			for _, op := range hs {
+				op := op
+				acts = append(acts, func() { add(op) })
+			}
+			for _, f := range extra {
+				k := r.Intn(len(acts) + 1)
+				acts = append(acts[:k:k], append([]func(){f}, acts[k:]...)...)
+			}
+			for _, f := range acts {
+				f()
+			}
+		}
+		later()
+		doRender()
+		if r.Intn(2) == 0 {
+			later()
+			doRender()
+		}
+		tags["blank-hint-after-render"] = true
+	case 1:
+		hintP := hist.Op{Kind: pick(r, []string{"importname", "importalias"}), F: 0, A: p, B: pick(r, append([]string{"kv"}, namePool...))}
+		when := r.Intn(5) // 0: hint before Anon, 1: after Anon, 2: between the renders, else: none
+		if when == 0 {
+			add(hintP)
+		}
+		an := []string{p}
+		if r.Intn(3) == 0 {
+			an = append(an, "anon.host/a")
+			r.Shuffle(2, func(a, b int) { an[a], an[b] = an[b], an[a] })
+		}
+		add(hist.Op{Kind: "anon", F: 0, Strs: an})
+		if when == 1 {
+			add(hintP)
+		}
+		// at least one other path is imported by the first render (the File's own path is not)
+		var imp []int
+		for _, o := range others {
+			if paths[o] != info.Local {
+				imp = append(imp, o)
+			}
+		}
+		if len(imp) == 0 {
+			imp = append(imp, take(user))
+		}
+		addRefs(append(append([]int{}, others...), imp...)...)
+		doRender()
+		if when == 2 {
+			add(hintP)
+		}
+		if r.Intn(3) == 0 {
+			fragment(tgt) // the fragment registers p; the File.Render after it shows the upgrade
+		}
+		addRefs(tgt)
+		if r.Intn(3) == 0 {
+			addRefs(imp[0]) // one more reference to a path that is imported already
+		}
+		doRender()
+		tags["anon-upgraded-between-renders"] = true
+		tags["anon-then-reference"] = true
+	default:
+		cref := term.S(term.Named("Var"), term.Id("_"), term.Op("="), term.Qual("C", c19Ref))
+		cBefore := r.Intn(4)
+		switch cBefore {
+		case 0:
+			add(hist.Op{Kind: "fadd", F: 0, Code: cref})
+			tags["C-in-block-before-preamble"] = true
+		case 1:
+			add(hist.Op{Kind: "anon", F: 0, Strs: []string{"C"}})
+			tags["C-in-block-before-preamble"] = true
+		}
+		addRefs(append([]int{}, others...)...)
+		if r.Intn(2) == 0 {
+			addRefs(tgt)
+		}
+		doRender()
+		block := func(i int) hist.Op {
+			return hist.Op{Kind: "cgo", F: 0, A: c19Block("omnr"[r.Intn(4)], i, r.Intn(2) == 0)}
+		}
+		acts := []func(){func() { add(block(0)) }}
+		if r.Intn(3) == 0 {
+			acts = append(acts, func() { add(block(1)) })
+			tags["preamble-blocks=2"] = true
+		}
+		var one func()
+		switch k := r.Intn(4); {
+		case k == 0:
+			ni := take(user)
+			one = func() { addRefs(ni) }
+			tags["new-import=reference"] = true
+		case k == 1:
+			one = func() { add(hist.Op{Kind: "anon", F: 0, Strs: []string{"anon.host/a"}}) }
+			tags["new-import=anon"] = true
+		case k == 2 && cBefore != 0:
+			one = func() { add(hist.Op{Kind: "fadd", F: 0, Code: cref}) }
+			tags["new-import=Qual-C"] = true
+		default:
+			if cBefore <= 1 { // "C" is imported already: the preamble alone would add nothing
+				ni := take(user)
+				one = func() { addRefs(ni) }
+				tags["new-import=reference"] = true
+			} else {
+				one = func() {}
+				tags["new-import=C-by-preamble-only"] = true
+			}
+		}
+		k := r.Intn(len(acts) + 1)
+		acts = append(acts[:k:k], append([]func(){one}, acts[k:]...)...)
+		for _, f := range acts {
+			f()
+		}
+		doRender()
+		if r.Intn(3) == 0 {
+			add(block(2))
+			tags["preamble-extended-after-render"] = true
+			doRender()
+		}
+		tags["preamble-added-between-renders"] = true
+	}
+	add(hist.Op{Kind: "imports", F: 0})
+	info.Paths = paths
+	var tl []string
+	for t := range tags {
+		tl = append(tl, t)
+	}
+	tl = append(tl, fmt.Sprintf("renders=%d", nrender))
+	sort.Strings(tl)
+	// NonTrivial as in stream histories; true by construction here: one of the first two
+	// File.Renders is doubled, and the paths of the File body are written by two File.Renders
+	// with a state change (hint, Add, Anon, CgoPreamble) in between.
+	return &Case{Hist: h, Stream: "late-hints", Tags: tl, NonTrivial: true, Meta: map[string]interface{}{"c08": info}}
 }
 
 // Regressions: exemplars of the two defects fixed in /repo (they must pass now), and one
@@ -477,11 +791,26 @@ func (c08) Oracle(c *Case, got []hist.Obs) string {
 	rc := &RefCase{Paths: info.Paths}
 	known := map[int]map[string]string{} // file -> path -> qualifier ("" = bare) as first written
 	when := map[int]map[string]int{}     // file -> path -> operation that wrote it first
+	prevSpecs := map[int][]impSpec{}     // file -> import specs of its last File.Render
+	prevAt := map[int]int{}
+	var pre []string // CgoPreamble blocks so far (single-File histories)
+	anonC, qualC := false, false
 	oi := 0
 	for i, op := range c.Hist {
 		if op.Kind == "save" || op.Kind == "imports" {
 			oi++
 			continue
+		}
+		if op.Kind == "cgo" {
+			pre = append(pre, op.A)
+		}
+		if op.Kind == "anon" {
+			for _, a := range op.Strs {
+				anonC = anonC || a == "C"
+			}
+		}
+		if op.Kind == "fadd" && strings.Contains(term.NewSer().Sexp(op.Code), term.X(c19Ref)) {
+			qualC = true // the statement `var _ = Qual("C", c19Ref)` of stream late-hints
 		}
 		if !c08IsRender(op) {
 			continue
@@ -583,8 +912,55 @@ func (c08) Oracle(c *Case, got []hist.Obs) string {
 				}
 			}
 		}
+		// 3. the import lines of successive File.Renders extend one another: a line with a name
+		// (or without alias) is repeated as it was; a `_` line stays, or becomes a named line
+		// once the path has been written; no line disappears
+		for _, old := range prevSpecs[op.F] {
+			var now *impSpec
+			for k := range specs {
+				if specs[k].path == old.path {
+					now = &specs[k]
+				}
+			}
+			what := fmt.Sprintf("operation %d (File.Render) imported %s; the import block of operation %d (File.Render)", prevAt[op.F], c08ShowSpec(old), i)
+			_, written := kn[old.path]
+			switch {
+			case now == nil:
+				return fmt.Sprintf("%s no longer imports that path:\n%q", what, o.Out)
+			case old.name == "_" && now.name != "_" && !written:
+				return fmt.Sprintf("%s has %s although no output has written the path:\n%q", what, c08ShowSpec(*now), o.Out)
+			case old.name != "_" && now.name != old.name:
+				return fmt.Sprintf("%s has %s:\n%q", what, c08ShowSpec(*now), o.Out)
+			}
+		}
+		prevSpecs[op.F], prevAt[op.F] = specs, i
+		// 4. a preamble added at any point of the history sits directly above `import "C"` in
+		// every later File.Render, and the other imports are all still there (C19's oracle)
+		if len(pre) > 0 {
+			var others []string
+			for _, p := range sortedKeys(c08Keys(kn)) {
+				if !(p == info.Local && info.Local != "") {
+					others = append(others, p)
+				}
+			}
+			for _, old := range specs {
+				if old.name == "_" && old.path != "C" {
+					others = append(others, old.path)
+				}
+			}
+			if m := C19Check(qualC, anonC, pre, others, o.Out); m != "" {
+				return fmt.Sprintf("operation %d (File.Render after CgoPreamble): %s\n%q", i, m, o.Out)
+			}
+		}
 	}
 	return ""
+}
+
+func c08ShowSpec(s impSpec) string {
+	if s.name == "" {
+		return fmt.Sprintf("`%q`", s.path)
+	}
+	return fmt.Sprintf("`%s %q`", s.name, s.path)
 }
 
 func c08ShowQ(q string) string {
